@@ -9,8 +9,10 @@ FIRST = {  # first result before the check was strengthened (caught unless liste
 # second round (seeds _4.._6, written by fresh agents told to avoid the first round's areas): caught at first run -
 ROUND2_CAUGHT = {"C10_4", "C09_4", "C02_5", "C02_6", "C01_4", "C07_4", "C03_4", "C03_6", "C08_5", "C08_6", "C16_6", "C20_4", "C20_5", "C15_4", "C14_4", "C14_6",
                  "C12_4", "C12_5", "C19_4", "C19_5", "C19_6", "C13_4", "C11_5", "C11_6"}
+ROUND3_CAUGHT = {"C02_9", "C10_7", "C09_7", "C09_9", "C04_7", "C04_9", "C08_8", "C08_9", "C03_7", "C03_8", "C03_9", "C05_7", "C05_8", "C05_9"}
+ROUND2_CAUGHT |= ROUND3_CAUGHT
 for _p in range(1, 21):
-    for _i in (4, 5, 6):
+    for _i in (4, 5, 6, 7, 8, 9):
         _n = f"C{_p:02d}_{_i}"
         if _n not in ROUND2_CAUGHT:
             FIRST.setdefault(_n, "missed")
@@ -42,6 +44,7 @@ print("|---|---|---|---|---|")
 for r in rows:
     print(f"| {r[0]} | {r[1]} | {r[3]} | {r[2]} | `{r[4]}` |")
 r1 = [r for r in rows if int(r[0].split("_")[1]) <= 3]
-r2 = [r for r in rows if int(r[0].split("_")[1]) > 3]
-print(f"\nFirst round: {sum(1 for r in r1 if r[3] == 'caught')} of {len(r1)} caught at the first run; second round: {sum(1 for r in r2 if r[3] == 'caught')} of {len(r2)} caught at the first run. "
+r2 = [r for r in rows if 3 < int(r[0].split("_")[1]) <= 6]
+r3 = [r for r in rows if int(r[0].split("_")[1]) > 6]
+print(f"\nFirst round: {sum(1 for r in r1 if r[3] == 'caught')} of {len(r1)} caught at the first run; second round: {sum(1 for r in r2 if r[3] == 'caught')} of {len(r2)}; third round: {sum(1 for r in r3 if r[3] == 'caught')} of {len(r3)}. "
       f"After strengthening {sum(1 for r in rows if r[2] == 'caught')} of {len(rows)} seeded changes are caught by the quick tier of the property's check.")
